@@ -2,11 +2,14 @@
    Statements only.  Trie-based predicates (YouTube, shorteners, should_resolve): proved via C09.
    Regex-based predicates (Facebook, Twitter, Instagram, Telegram): the pre-parsed form reads the
    hostname only (proved); that it is true exactly for whole-label subdomains of the site's domains
-   and agrees with the string forms is decided by the harness and the correspondence — PARTIAL. *)
+   and agrees with the string forms is decided by the harness and the correspondence — PARTIAL; proved for the
+   string forms: a positive answer is decided by the prefix of the url ending at the first '/', '?' or '#' after the
+   host (text of the path / query / fragment cannot change it). *)
+From Coq Require Import String.
 From Coq Require Import List NArith.
 Import ListNotations.
 From UV Require Import Py.Val Py.Str Py.Regex Py.UrlLib Gen.Tables Ural.Utils Ural.HostnameTrieSet Ural.Predicates
-  Proofs.HostnameTrieFacts Proofs.C18.
+  Proofs.HostnameTrieFacts Proofs.C18 Py.RegexFacts Gen.Patterns Proofs.RegexTail Proofs.C18b.
 
 (* a trie predicate is true exactly when the hostname equals or is a whole-label subdomain of a
    listed domain (token lists are reversed label lists, see C09) *)
@@ -46,7 +49,28 @@ Theorem C18_get_hostname_host_only : forall e u p, safe_urlsplit e u = Ok p ->
   get_hostname e u = Ok (match hostname p with Some [] => None | h => h end).
 Proof. exact get_hostname_host_only. Qed.
 
+(* string forms of the four regex predicates: the patterns end with ([/?#] | blanks-to-end) and look forward nowhere
+   else (computed on the ASTs regenerated from the source), hence a positive answer is decided by the prefix of the
+   url ending at the first '/', '?' or '#' after the host: whatever text replaces the rest of the url (path, query,
+   fragment), the answer stays positive -- or the url ended in blanks right after the host *)
+Theorem C18_string_form_decided_by_prefix : forall u,
+  (is_facebook_url u = true -> decided_by_prefix FACEBOOK_URL_RE_f FACEBOOK_URL_RE u) /\
+  (is_twitter_url u = true -> decided_by_prefix TWITTER_URL_RE_f TWITTER_URL_RE u) /\
+  (is_instagram_url u = true -> decided_by_prefix INSTAGRAM_URL_RE_f INSTAGRAM_URL_RE u) /\
+  (is_telegram_url u = true -> decided_by_prefix TELEGRAM_URL_RE_f TELEGRAM_URL_RE u).
+Proof. intros u. exact (conj (facebook_decided u) (conj (twitter_decided u) (conj (instagram_decided u) (telegram_decided u)))). Qed.
+
+(* non-vacuity: a twitter url with a path, and what decided_by_prefix unfolds to *)
+Local Open Scope string_scope.
+Local Open Scope list_scope.
+Example C18_string_form_example :
+  is_twitter_url (lit "https://mobile.twitter.com/a?b#c") = true /\
+  is_twitter_url (lit "https://mobile.twitter.com/@facebook.com?x=t.me#instagram.com") = true /\
+  is_twitter_url (lit "https://mobile.twitter.com.evil.fr/twitter.com") = false.
+Proof. vm_compute. repeat split. Qed.
+
 Print Assumptions C18_trie_membership.
+Print Assumptions C18_string_form_decided_by_prefix.
 Print Assumptions C18_trie_host_only.
 Print Assumptions C18_regex_parsed_host_only.
 Print Assumptions C18_shortened_implies_should_resolve.
